@@ -670,6 +670,9 @@ func (rd *c07Round) execStray(e c07Ev) {
 	}
 	c := rd.nextConn()
 	xff := "10.99.0.1"
+	if (e.arg+e.sid)%2 == 0 {
+		xff = ref.xff // from the very address of a tunnel that may be half open at this moment
+	}
 	rd.emit(rd.reqEvent(c, "i", "l", id, xff))
 	conn, err := net.DialTimeout("tcp", rd.gw.addr, 2*time.Second)
 	st := c07Stray{conn: c, id: id, xff: xff}
